@@ -198,6 +198,94 @@ feature tst1 {
                    {"vkrn": {"GPOS": [0, 1, 2]}, "vpal": {"GPOS": [3, 4]}, "tst1": {"GPOS": [5]}})
         t = [(["a", "b", "g"], on("vkrn")), (["c", "d", "e", "f"], on("vkrn")), (["a", "b", "h"], on("vpal")), (["a", "b"], on("tst1")),
              (["a", "b", "c", "d"], on("vkrn", "vpal", "tst1"))]
+    elif name == "format2-contexts":
+        # many rules over one partition into four classes of four glyphs, backtracks of two or three
+        # positions in different classes: the compiler encodes them as class-based (Format 2) subtables
+        import random as _random
+
+        rnd = _random.Random(20260924)
+        part = [["a", "b", "c", "d"], ["e", "f", "g", "h"], ["i", "j", "k", "l"], ["m", "n", "a.sc", "b.sc"]]
+        names_ = ["@PA", "@PB", "@PC", "@PD"]
+        outs = ["c.sc", "d.sc", "e.sc", "a.alt1", "a.alt2", "a.alt3", "f_i", "f_f"]
+        lines = ["%s = [%s];" % (n_, " ".join(p_)) for n_, p_ in zip(names_, part)]
+        gs_rules, gp_rules, subl, posl, seen, prev = [], [], [], [], set(), None
+        while len(gs_rules) < 22:
+            nb = rnd.choice([2, 2, 3])
+            bi = [rnd.randrange(4) for _ in range(nb)]
+            if len(set(bi)) == 1:
+                bi[0] = (bi[1] + 1) % 4
+            ii = rnd.randrange(4)
+            ai = [rnd.randrange(4)] if rnd.random() < 0.5 else []
+            key = (tuple(bi), ii, tuple(ai))
+            if key in seen or (key[0], key[2]) == prev:
+                continue
+            seen.add(key)
+            prev = (key[0], key[2])
+            back, inp, ahead = [part[k] for k in bi], part[ii], [part[k] for k in ai]
+            t_ = rnd.choice(outs)
+            v_ = 10 * (len(gs_rules) + 1)
+            ctx_ = " ".join(names_[k] for k in bi), names_[ii], " ".join(names_[k] for k in ai)
+            subl.append("    sub %s %s' %s by %s;" % (ctx_[0], ctx_[1], ctx_[2], t_))
+            posl.append("    pos %s %s' %d %s;" % (ctx_[0], ctx_[1], v_, ctx_[2]))
+            gs_rules.append({"back": back, "input": [inp], "ahead": ahead, "lookups": [[_s([((g,), (t_,)) for g in inp])]]})
+            gp_rules.append({"back": back, "input": [inp], "ahead": ahead,
+                             "lookups": [[{"kind": "spos", "flag": {}, "values": {g: (0, 0, v_, 0) for g in inp}}]]})
+        fea = "\n".join(lines + ["feature tst1 {"] + subl + ["} tst1;", "feature tst2 {"] + posl + ["} tst2;"]) + "\n"
+        m = _model([{"kind": "chain", "flag": {}, "subtables": [gs_rules]}], [{"kind": "cpos", "flag": {}, "subtables": [gp_rules]}],
+                   {"tst1": {"GSUB": [0]}, "tst2": {"GPOS": [0]}})
+        t = []
+        for r_ in gs_rules:
+            w = [rnd.choice(x) for x in r_["back"]] + [rnd.choice(r_["input"][0])] + [rnd.choice(x) for x in r_["ahead"]]
+            nb = len(r_["back"])
+            for s_ in (w, w[:nb][::-1] + w[nb:], w[1:], [rnd.choice(part[rnd.randrange(4)]) for _ in range(5)]):
+                t.append((s_, on("tst1")))
+                t.append((s_, on("tst2")))
+    elif name == "mixed-brackets":
+        # brackets that mix glyph names, ranges and class references in any order
+        fea = """
+@LC = [c d e];
+@UC = [h i];
+feature tst1 {
+    sub [a @LC] by [j k l m];
+    sub [f g @UC n] by b;
+} tst1;
+feature tst2 {
+    pos [a b @LC] [f @UC g] 25;
+    pos [k-m @UC a.sc] 15;
+    pos [j @LC]' 35 [@UC n];
+} tst2;
+"""
+        m = _model([_s([("a", "j"), ("c", "k"), ("d", "l"), ("e", "m"), ("f", "b"), ("g", "b"), ("h", "b"), ("i", "b"), ("n", "b")])],
+                   [{"kind": "ppos", "flag": {}, "pairs": [], "classes": [[(["a", "b", "c", "d", "e"], ["f", "h", "i", "g"], (0, 0, 25, 0), None)]]},
+                    {"kind": "spos", "flag": {}, "values": {g: (0, 0, 15, 0) for g in ["k", "l", "m", "h", "i", "a.sc"]}},
+                    {"kind": "cpos", "flag": {}, "subtables": [[{"back": [], "input": [["j", "c", "d", "e"]], "ahead": [["h", "i", "n"]],
+                                                                  "lookups": [[{"kind": "spos", "flag": {}, "values": {g: (0, 0, 35, 0) for g in ["j", "c", "d", "e"]}}]]}]]}],
+                   {"tst1": {"GSUB": [0]}, "tst2": {"GPOS": [0, 1, 2]}})
+        t = [(s_, on("tst1")) for s_ in (["a", "c", "d", "e"], ["f", "g", "h", "i", "n"], ["b", "j"])]
+        t += [(s_, on("tst2")) for s_ in (["a", "f"], ["e", "i"], ["c", "g"], ["b", "h"], ["d", "n"], ["k", "l", "m", "h", "i", "a.sc"], ["j", "h"], ["e", "n"], ["c", "i"], ["a", "n"])]
+    elif name == "variable-scalars":
+        fea = """
+markClass acute <anchor (wght=900:200 wght=100:120 wght=400:160) 500> @TOP;
+feature tst1 {
+    pos a b (wght=100:-40 wght=400:-80 wght=900:40);
+    pos c (wght=900:80 wght=400:0 wght=100:40);
+    pos d <(wght=400:40 wght=900:0 wght=100:80) 0 (wght=100:0 wght=400:40 wght=900:120) 0>;
+    pos base e <anchor 300 (wght=100:400 wght=900:480 wght=400:440)> mark @TOP;
+    pos f g (wght=900:40 wght=100:-40 wght=400:-80);
+    pos h (wght=400:0 wght=100:40 wght=900:80);
+} tst1;
+"""
+        V = lambda a, b, c: {"var": [(100, a), (400, b), (900, c)]}
+        pp = {"kind": "ppos", "flag": {}, "pairs": [("a", "b", (0, 0, -80, 0, {"xa": V(-40, -80, 40)}), None)], "classes": []}
+        sp = {"kind": "spos", "flag": {}, "values": {"c": (0, 0, 0, 0, {"xa": V(40, 0, 80)}), "d": (40, 0, 40, 0, {"xp": V(80, 40, 0), "xa": V(0, 40, 120)})}}
+        mb = {"kind": "mbase", "flag": {}, "marks": {"acute": ("TOP", (160, 500, {"x": V(120, 160, 200)}))}, "bases": {"e": {"TOP": (300, 440, {"y": V(400, 440, 480)})}}}
+        pp2 = {"kind": "ppos", "flag": {}, "pairs": [("f", "g", (0, 0, -80, 0, {"xa": V(-40, -80, 40)}), None)], "classes": []}
+        sp2 = {"kind": "spos", "flag": {}, "values": {"h": (0, 0, 0, 0, {"xa": V(40, 0, 80)})}}
+        m = _model([], [pp, sp, mb, pp2, sp2], {"tst1": {"GPOS": [0, 1, 2, 3, 4]}}, {"acute": 3})
+        m["axis"] = ("wght", 100, 400, 900)
+        prog = {"fea": fea.lstrip("\n"), "model": m, "kinds": ["fixed:" + name], "axis": m["axis"]}
+        seqs = (["a", "b"], ["c"], ["d"], ["e", "acute"], ["f", "g"], ["h"], ["a", "b", "c", "d", "e", "acute", "f", "g", "h"])
+        return prog, [("fixed", s_, {"tst1": 1}, "DFLT", "dflt", loc) for s_ in seqs for loc in (None, 100, 250, 400, 650, 900)]
     elif name == "pair-subtables":
         fea = """
 feature tst1 {
